@@ -158,7 +158,14 @@ class Vertex(base.BaseObject):
         if not self.NEIGHBOR_CACHING:
             return self._QA_NB_INVALID
 
-        if args in self.__qa_nb_cache:
+        try:
+            cached = args in self.__qa_nb_cache
+        except TypeError:
+            # an argument that cannot be hashed (a filter callable that defines
+            # ``__eq__`` without ``__hash__``, say): such a query is never cached
+            return self._QA_NB_INVALID
+
+        if cached:
             self._qa_stats()[0] += 1
 
             # hand out a copy: the caller owns (and may modify) the result
@@ -210,8 +217,12 @@ class Vertex(base.BaseObject):
         """
         if not self.NEIGHBOR_CACHING:
             return
+        try:
+            self.__qa_nb_cache[args] = list(answer)
+        except TypeError:
+            # unhashable arguments: see _qa_neighbors_get
+            return
         self._qa_stats()[3] += 1
-        self.__qa_nb_cache[args] = list(answer)
 
     def add_to_link(self, link: Link):
         """
